@@ -3,7 +3,7 @@
       skip, a loop and an end report). *)
 From Coq Require Import Lia ZArith List.
 From OCI Require Import Machine Checkers.
-From OCI.proofs Require Import Base Trace ArithOk InvKnown ChkKnown IterBase ChkIter ChkAll IterFair.
+From OCI.proofs Require Import Base Trace ArithOk InvKnown ChkKnown IterBase ChkIter ChkAll IterFair GapFree.
 Import ListNotations.
 Open Scope N_scope.
 
@@ -19,7 +19,7 @@ Definition ex_sched : list tid := [0; 1; 2; 0; 1; 2; 1; 0; 0; 2; 1; 2; 0; 1; 1; 
 
 Definition ex_env (k : kind) (own : bool) : env :=
   {| e_kind := k; e_adaptor := ANone; e_len := 7; e_start := 10; e_end := 17; e_hint := HExact;
-     e_owning := own; e_mode := Checked; e_crash := None |}.
+     e_owning := own; e_mode := Checked; e_crash := None; e_gap := fun _ => false |}.
 
 Lemma ex_wf_progs : wf_progs ex_progs.
 Proof. intros t. destruct t as [|[|[|t]]]; repeat constructor; cbn; rewrite ?W_val; lia. Qed.
@@ -44,4 +44,98 @@ Example iter_hypotheses_hold :
 Proof.
   split; [split; [unfold wf_env; cbn; rewrite W_val; lia|reflexivity]|].
   split; [exact ex_wf_progs|]. split; [apply nowrapb_ok; vm_compute; reflexivity|vm_compute; reflexivity].
+Qed.
+
+(** ** a wrapped iterator that is not fused
+
+    Four elements; the second call of the wrapped next() answers None although three elements remain.
+    Thread 0 pulls a chunk of two: it takes position 0, meets the None, raises the completed flag and
+    publishes its whole reservation.  Thread 1 (a buffered iterator of size two) had tested the flag before
+    it was raised: when its turn comes it still enters the critical section and takes positions 1 and 2
+    under the index 2 of its ticket.  Both threads then pull once more and are told the end: the end is
+    reported although the wrapped iterator has yielded only three of its four elements. *)
+Definition gap_env : env :=
+  {| e_kind := KIter; e_adaptor := ANone; e_len := 4; e_start := 0; e_end := 0; e_hint := HInexact;
+     e_owning := true; e_mode := Checked; e_crash := None; e_gap := fun k => N.eqb k 1 |}.
+
+Definition gap_progs : tid -> list op := fun t =>
+  match t with
+  | 0%nat => [Chunk 2 2; Next NVal]
+  | 1%nat => [BufNew 2; BufNext 1; Next NIdVal]
+  | _ => []
+  end.
+
+Definition gap_sched : list tid := [0; 0; 0; 0; 0; 0; 1; 1; 1; 1; 0; 0; 1; 1; 1; 1; 0; 0; 0; 1; 1; 1]%nat.
+
+Lemma gap_wf_progs : wf_progs gap_progs.
+Proof. intros t. destruct t as [|[|t]]; repeat constructor; cbn; rewrite ?W_val; lia. Qed.
+
+Example gap_hypotheses_hold :
+  let c := exec gap_env (init gap_progs) gap_sched in
+  iter_env gap_env /\ ~ fused gap_env /\ wf_progs gap_progs /\ nowrap (c_labels c) /\
+  (* the end has been reported, nothing is pending, and the wrapped iterator has not been exhausted *)
+  end_reported (c_trace c) = true /\ n_pending (c_trace c) = 0%Z /\ s_cur (c_sh c) = 3 /\ e_len gap_env = 4 /\
+  (* thread 1 was handed position 1 under index 2 *)
+  In (ERet 1%nat (RChunk 2 [mk_run (Some 2) 1 1] 2 1 1) []) (c_trace c) /\
+  (* the end is permanent; index fidelity and the no-loss half of exactly-once do not survive the gap *)
+  chk_C05 gap_env (c_trace c) = true /\ chk_C08 gap_env (c_trace c) = true /\
+  chk_C02 gap_env (c_trace c) = false /\ chk_C01_noloss gap_env (c_trace c) = false.
+Proof.
+  cbv zeta.
+  split; [split; [unfold wf_env; cbn; rewrite W_val; lia|reflexivity]|].
+  split; [intros H; specialize (H 1); discriminate H|].
+  split; [exact gap_wf_progs|]. split; [apply nowrapb_ok; vm_compute; reflexivity|].
+  split; [vm_compute; reflexivity|]. split; [vm_compute; reflexivity|]. split; [vm_compute; reflexivity|].
+  split; [vm_compute; reflexivity|]. split; [vm_compute; auto 10|].
+  split; [vm_compute; reflexivity|]. split; [vm_compute; reflexivity|]. split; vm_compute; reflexivity.
+Qed.
+
+(** the hypothesis of the "until the first premature None" theorems is satisfiable by an iterator that is
+    not fused: after the first five steps of the run above the wrapped next() has been called once and has
+    yielded position 0; the sixth step is the call that answers None although three elements remain *)
+Example gap_free_prefix :
+  gap_free gap_env (s_calls (c_sh (exec gap_env (init gap_progs) (firstn 5 gap_sched)))) /\
+  s_cur (c_sh (exec gap_env (init gap_progs) (firstn 5 gap_sched))) = 1 /\
+  ~ gap_free gap_env (s_calls (c_sh (exec gap_env (init gap_progs) (firstn 6 gap_sched)))).
+Proof.
+  split; [|split].
+  - intros k Hk. assert (Hc : s_calls (c_sh (exec gap_env (init gap_progs) (firstn 5 gap_sched))) = 1) by (vm_compute; reflexivity).
+    rewrite Hc in Hk. assert (k = 0) as -> by lia. reflexivity.
+  - vm_compute. reflexivity.
+  - intros H. assert (Hc : s_calls (c_sh (exec gap_env (init gap_progs) (firstn 6 gap_sched))) = 2) by (vm_compute; reflexivity).
+    rewrite Hc in H. specialize (H 1 ltac:(lia)). discriminate H.
+Qed.
+
+(** the checker of the no-duplicate half of C01 accounts for the elements of a chunk that the caller did
+    not take by the INDEX of the chunk, and for the elements that were taken by their VALUE: once a gap
+    has made the two differ, it objects to a run on which no element is delivered twice (thread 1 leaves
+    positions 2 and 3 in its chunk of index 3, thread 2 is handed position 4 under index 5) -- while no
+    position is moved out or destroyed twice (C08) *)
+Definition gap2_env : env :=
+  {| e_kind := KIter; e_adaptor := ANone; e_len := 6; e_start := 0; e_end := 0; e_hint := HInexact;
+     e_owning := true; e_mode := Checked; e_crash := None; e_gap := fun k => N.eqb k 2 |}.
+
+Definition gap2_progs : tid -> list op := fun t =>
+  match t with 0%nat => [Chunk 3 3] | 1%nat => [Chunk 2 0] | 2%nat => [Next NVal] | _ => [] end.
+
+Definition gap2_sched : list tid :=
+  [0; 0; 1; 1; 2; 2; 0; 0; 1; 2; 1; 2; 0; 0; 0; 1; 2; 0; 0; 1; 1; 1; 1; 2; 2; 2]%nat.
+
+Example gap_breaks_the_mixed_accounting :
+  let c := exec gap2_env (init gap2_progs) gap2_sched in
+  iter_env gap2_env /\ nowrap (c_labels c) /\
+  rev (c_trace c) =
+    [ECall 0%nat (Chunk 3 3); ECall 1%nat (Chunk 2 0); ECall 2%nat (Next NVal);
+     ERet 0%nat (RChunk 0 [mk_run (Some 0) 0 2] 2 2 0) [];
+     ERet 1%nat (RChunk 3 [] 2 0 2) [{| d_lo := 2; d_cnt := 2 |}];
+     ERet 2%nat (ROne (mk_run None 4 1)) []] /\
+  chk_C01_nodup gap2_env (c_trace c) = false /\ chk_C03 gap2_env (c_trace c) = false /\
+  pairwise_disj (taken_all gap2_env (c_trace c) ++ dropped_all (c_trace c)) = true /\
+  chk_C05 gap2_env (c_trace c) = true /\ chk_C07 (c_labels c) = true /\ chk_C08 gap2_env (c_trace c) = true.
+Proof.
+  cbv zeta.
+  split; [split; [unfold wf_env; cbn; rewrite W_val; lia|reflexivity]|].
+  split; [apply nowrapb_ok; vm_compute; reflexivity|].
+  split; [vm_compute; reflexivity|]. split; [vm_compute; reflexivity|]. split; [vm_compute; reflexivity|].
+  split; [vm_compute; reflexivity|]. split; [vm_compute; reflexivity|]. split; vm_compute; reflexivity.
 Qed.
